@@ -35,7 +35,8 @@ TECHNIQUE = "runtime monitoring: exact-rational boundary-grid oracle for call ti
 RULE = ("random cases: interval k/8 s, random start offset, now flag, plain/withCount, a per-call behaviour schedule "
         "(return / raise / Deferred fired by the harness or by a clock timer after a latency, ok or failed / already-fired "
         "Deferred / stop() from inside), and 5-60 steps mixing sub-interval advances, exact-boundary advances, jumps of many "
-        "intervals, advance(0), stop, reset, Deferred firings.  Distinct = the whole case; non-trivial = at least 2 calls "
+        "intervals, advance(0), stop, reset, Deferred firings, calls that block (clock moves inside the call), and start() "
+        "again after the loop ended: at top level, from a callback of start()'s Deferred, and (with stop()) from inside the function.  Distinct = the whole case; non-trivial = at least 2 calls "
         "were observed and at least one boundary was skipped, a Deferred was awaited, or a stop/failure/reset happened.")
 ASSUMPTIONS = ["trusted base: task.Clock (property C09) delivers the timed calls; the boundary arithmetic of this module",
                "all times are multiples of 1/16 s, intervals multiples of 1/8 s: float arithmetic in LoopingCall is exact"]
